@@ -256,7 +256,7 @@ class Machine(Interp):
         raise Unsupported(f"item store on {v!r}")
 
     # ---- comprehensions
-    def _comp(self, n, fr, emit):
+    def _comp(self, n, fr, emit, first=None):
         """Run the nested generators of a comprehension; emit(frame) is called per innermost iteration.
         A Python generator (so a generator expression stays lazy)."""
         cfr = Frame(self, fr.module, fr.func, parent=fr)
@@ -268,7 +268,7 @@ class Machine(Interp):
                     yield r[0]
                 return
             g = n.generators[i]
-            it = self.ev(g.iter, cfr if i else fr)
+            it = first[0] if (i == 0 and first is not None) else self.ev(g.iter, cfr if i else fr)
 
             def body(elem):
                 self.assign(g.target, elem, cfr)
@@ -328,7 +328,9 @@ class Machine(Interp):
         return d
 
     def ev_GeneratorExp(self, n, fr):
-        return GenObj(self._comp(n, fr, lambda f: (self.ev(n.elt, f),)), name=f"genexpr:{n.lineno}")
+        # the outermost iterable of a generator expression is evaluated when the expression is created
+        first = [self.ev(n.generators[0].iter, fr)]
+        return GenObj(self._comp(n, fr, lambda f: (self.ev(n.elt, f),), first=first), name=f"genexpr:{n.lineno}")
 
     # ---- calls
     def ev_Call(self, n, fr):
